@@ -84,3 +84,14 @@ impl VAsBytes for [u8] { open spec fn bytes(&self) -> Seq<u8> { self@ } }
 impl VAsBytes for Vec<u8> { open spec fn bytes(&self) -> Seq<u8> { self@ } }
 impl<const N: usize> VAsBytes for [u8; N] { open spec fn bytes(&self) -> Seq<u8> { self@ } }
 
+
+// vec![0u8; n]  [rewrite R11]: allocation side condition (C08) -- n bounded by a constant
+#[verifier::external_body]
+pub fn vzeroed(n: usize) -> (r: Vec<u8>)
+    requires n <= 8 * 1024 * 1024,
+    ensures r@.len() == n,
+{ vec![0u8; n] }
+
+// <[T]>::fill (Rust reference)
+pub assume_specification<T: Clone>[<[T]>::fill](s: &mut [T], value: T)
+    ensures final(s)@.len() == old(s)@.len();
